@@ -3,7 +3,8 @@
                             re-check on every rebuilt node), Clone (same machine, identity), for_each_key
    src/iter/tree.rs        PostOrderIter over Rtl<T> (explicit stack with `processed` flags)
    src/miniscript/iter.rs  Iter / PkIter (pre-order, get_nth_pk)
-   src/miniscript/context.rs check_pk / check_global_consensus_validity (the key-dependent part)
+   src/miniscript/context.rs check_pk / check_global_consensus_validity (the key-dependent part; pk_h keys
+                            are checked like pk_k keys since /repo commit bd3f29d9)
    src/descriptor/*.rs     per-wrapper translate_pk, ForEachKey, iter_pk
    Keys are indices; a translator is a function of the CALL INDEX and the key (a `&mut` translator
    whose state depends on its call history is such a function for a fixed input).  No proofs here. *)
@@ -262,10 +263,11 @@ Fixpoint check_pks (c : ctx) (kk : key -> kkind) (ks : list key) : option cerr :
   | k :: r => match check_pk c (kk k) with Some e => Some e | None => check_pks c kk r end
   end.
 
-(* check_global_consensus_validity, step 1 ("check the node first"): only PkK and the multi forms look at keys *)
+(* check_global_consensus_validity, step 1 ("check the node first"): PkK, PkH (since /repo bd3f29d9) and the
+   multi forms look at keys *)
 Definition node_check (c : ctx) (kk : key -> kkind) (m : ms) : option cerr :=
   match m with
-  | MPkK k => check_pk c (kk k)
+  | MPkK k | MPkH k => check_pk c (kk k)
   | MMulti _ ks | MSortedMulti _ ks => if is_tap c then Some CTapMulti else check_pks c kk ks
   | MMultiA _ ks | MSortedMultiA _ ks => if is_tap c then check_pks c kk ks else Some CMultiA
   | _ => None
